@@ -9,7 +9,11 @@ bookkeeping (a dozen lines of Python below, class Track).
 Streams: corpus (witnesses of the recorded defects, always run), exhaustive (all histories over
 the 16-operation alphabet: length <= 4 on the valid-with-code document, <= 3 on the three other
 documents and on the empty envelope; thorough: <= 6 / <= 4), random (length 7..30, all 32
-operations including JSON surgery and direct edits)."""
+operations including JSON surgery and direct edits), entry-points (the envelope a history ends in is
+serialised and handed to every envelope-processing entry point of the program - build, sign,
+validate over the binary, POST /bulk and POST /build of a loopback `gobl serve`, harness/c10ep.go;
+the outcome must be that of the same steps done on the library, which is itself tied to the model,
+and an envelope that comes back must obey the clauses of the statement)."""
 import glob
 import itertools
 from vlib import *
@@ -225,7 +229,7 @@ def classify(c, base, ops, g, alt):
 def check_lines(c, stream, items, note_samples=True, count_distinct=True):
     """items: [(base, ops)].  Runs implementation and model, compares, judges."""
     if not items:
-        return
+        return []
     lines = [c10_line(FX_REPAIRED, b, ops) for b, ops in items]
     go = run_go(lines, shards=16)
     mo = run_oracle(lines, shards=16)
@@ -271,11 +275,186 @@ def check_lines(c, stream, items, note_samples=True, count_distinct=True):
     if note_samples:
         b, ops = items[len(items) // 2]
         c.sample({"stream": stream, "base": b, "history": show(ops), "implementation": [list(s) for s in parse_steps(go[len(items) // 2])]})
+    return go
+
+# ----------------------------------------------------------------------------------------------
+# entry points: what the program does with the envelope a history ends in
+# ----------------------------------------------------------------------------------------------
+
+# what each entry point of internal/cli does, said with operations of the envelope API (and of the model)
+def ep_tail(entry, key):
+    return {"build": [(REPARSE,), (UNSIGN,), (CALC,), (VALIDATE,)],
+            "sign": [(REPARSE,), (CALC,), (SIGN, key)],
+            "validate": [(REPARSE,), (VALIDATE,)]}[entry]
+
+
+EP_ENTRIES = ("build", "sign", "validate")
+EP_SAYS = {"build": "parse ; unsign ; calculate ; validate", "sign": "parse ; calculate ; sign", "validate": "parse ; validate"}
+# operations of ALPHA16 that change the envelope (validate, verify and reparse only look at it)
+MUT11 = [o for o in ALPHA16 if o[0] not in (VALIDATE, VERIFY, REPARSE)]
+
+
+def c10ep_line(fx, base, ops, key, paths):
+    return "c10ep %d %d %s %d %d" % (fx, base, wops(ops), key, paths)
+
+
+def parse_ep(line):
+    """output of c10ep -> (steps, marshal outcome, gobl.Parse outcome, [(entry, path, outcome, nsigs, nreal, nstamps, revalidate)])"""
+    vs = parse_wire(line)
+    if len(vs) != 4 or not isinstance(vs[0], list) or not isinstance(vs[3], list):
+        return None
+    d = lambda x: x.decode() if isinstance(x, bytes) else x
+    return [(d(x[0]), x[1], x[2]) for x in vs[0]], d(vs[1]), d(vs[2]), [tuple(d(y) for y in r) for r in vs[3]]
+
+
+def ep_reference(tail_steps, parsed="ok"):
+    """the sequential reading: first outcome of the tail that is not ok (else ok), len(sigs) at the end.  The reading step
+    of the entry points is gobl.Parse, which refuses some JSON that json.Unmarshal into an Envelope (reparse) takes:
+    its outcome on the library (parsed) comes first."""
+    out = next((s[0] for s in tail_steps if s[0] != "ok"), "ok") if parsed == "ok" else parsed
+    return out, tail_steps[-1][1]
+
+
+def judge_ep(results, refs):
+    """Clauses of the statement on what the entry points answered.  refs: entry -> (outcome, nsigs) of the same steps
+    on the library.  Returns [(clause, result)]."""
+    bad = []
+    for r in results:
+        entry, path, out, n, real, stamps, reval = r
+        if out == "skip":
+            continue
+        if out == "panic":
+            bad.append(("%s never panics" % entry, r))
+            continue
+        if out == "ok" and entry != "validate":
+            if n < 0:
+                bad.append(("a successful %s hands back an envelope" % entry, r))
+                continue
+            if stamps > 0 and n == 0:
+                bad.append(("stamps are accepted only on signed envelopes", r))
+            if real != n:
+                bad.append(("every entry in the signature list is a real signature", r))
+            if reval != "ok":
+                bad.append(("the outcome is determined by the state of the envelope: what a successful %s hands back validates" % entry, r))
+        ref_out, ref_n = refs[entry]
+        if ref_out in ("panic", "skip", "marshal"):
+            continue
+        same = (out == ref_out) if path != "http" else ((out == "ok") == (ref_out == "ok"))
+        if same and out == "ok" and entry != "validate":
+            same = n == ref_n
+        if not same:
+            bad.append(("the outcome of each step is determined by the state of the envelope: %s answers as the same steps "
+                        "on the library (%s -> %s, %d signatures)" % (entry, EP_SAYS[entry], ref_out, ref_n), r))
+    return bad
+
+
+def par_go(lines, n=16):
+    """these lines are expensive (HTTP requests, process spawns): n harness processes, each with its own loopback server"""
+    from concurrent.futures import ThreadPoolExecutor
+    if len(lines) < 2 * n:
+        return run_go(lines, shards=1)
+    chunks = [lines[i::n] for i in range(n)]
+    with ThreadPoolExecutor(len(chunks)) as ex:
+        res = list(ex.map(lambda ch: run_go(ch, shards=1), chunks))
+    out = [None] * len(lines)
+    for i, r in enumerate(res):
+        out[i::n] = r
+    return out
+
+
+def check_entry_points(c, stream, items, cli_every):
+    """items: [(base, ops)].  Every envelope goes to bulk and HTTP; every cli_every-th one also to the binary."""
+    if not items:
+        return
+    keys = [i % 3 for i in range(len(items))]
+    paths = [7 if (cli_every and i % cli_every == 0) else 6 for i in range(len(items))]
+    lines = [c10ep_line(FX_REPAIRED, b, ops, k, p) for (b, ops), k, p in zip(items, keys, paths)]
+    go = par_go(lines)
+    # the same steps on the library and on the model (ordinary histories: compared and judged as such)
+    tails = [(b, list(ops) + ep_tail(e, k)) for (b, ops), k in zip(items, keys) for e in EP_ENTRIES]
+    tgo = check_lines(c, stream + "-reference", tails, note_samples=False)
+    verd = c.cov.setdefault("entry_point_verdicts", {})
+    reported = 0
+    for idx, ((base, ops), k, l, g) in enumerate(zip(items, keys, lines, go)):
+        pr = parse_ep(g)
+        if pr is None or len(pr[0]) != len(ops):
+            c.count(stream, 1)
+            c.report("harness could not run the case: %s -> %s" % (l, g), {"case": l, "implementation": g}, no_input=True)
+            continue
+        steps, merr, perr, results = pr
+        c.count(stream, 1, (base, tuple(ops)) if results else None)
+        if merr != "ok":
+            continue        # the envelope does not serialise: nothing to hand over
+        refs = {}
+        for j, e in enumerate(EP_ENTRIES):
+            ts = parse_steps(tgo[3 * idx + j]) or []
+            nt = len(ep_tail(e, k))
+            refs[e] = ep_reference(ts[-nt:], perr) if len(ts) == len(ops) + nt else ("skip", 0)
+        for r in results:
+            key = "%s/%s" % (r[0], r[1])
+            verd[key] = verd.get(key, 0) + (r[2] != "skip")
+        for clause, r in judge_ep(results, refs):
+            if reported >= 20:
+                break
+            reported += 1
+            entry, path, out, n, real, stamps, reval = r
+            what = ("%s: violated by %s over %s (-> %s%s) of the envelope that history [%s] on base document %d ends in (%d signatures)" % (
+                clause, entry, path, out,
+                "" if n < 0 else ", envelope handed back: %d signatures, %d real, %d stamps, Validate -> %s" % (n, real, stamps, reval),
+                show(ops), base, steps[-1][1] if steps else 0))
+            c.report(what, {"case": c10ep_line(FX_REPAIRED, base, ops, k, 7 if path == "cli" else 6), "clause": clause,
+                            "entry_point": entry, "path": path, "implementation": list(r),
+                            "library_reference": {e: list(v) for e, v in refs.items()},
+                            "history": [show_op(o) for o in ops],
+                            "rerun": "tools/check C10 --replay <this file>"})
+    if items:
+        i = len(items) // 2
+        pr = parse_ep(go[i])
+        c.sample({"stream": stream, "base": items[i][0], "history": show(items[i][1]), "entry_points": [list(r) for r in (pr[3] if pr else [])]}, limit=8)
+
+
+def run_entry_points(c, quick, corpus, random_items):
+    import vlib
+    tmp = os.path.join(WORK, "c10tmp.%d" % os.getpid())
+    os.makedirs(tmp, exist_ok=True)
+    vlib.GOENV["TMPDIR"] = tmp
+    vlib.GOENV["VERIF_GOBL_BIN"] = os.path.join(BIN, "gobl")
+    try:
+        info = parse_wire(run_go(["c09info"], shards=1)[0])[0]
+        have_cli, have_serve = bool(info[0]), bool(info[1])
+        c.cov["entry_points"] = {"cli_binary": have_cli, "loopback_serve(bulk,http)": have_serve,
+                                 "note": "" if have_serve else "gobl serve could not bind a loopback port (%s): command line only" % info[2].decode()}
+        if not have_cli:
+            c.report("bin/gobl is missing: the entry points of the program cannot be observed", {"machinery": "bin/gobl"}, no_input=True)
+            return
+        # corpus histories and all their prefixes, every one also over the binary
+        seen, cases = set(), []
+        for _, l in corpus:
+            _, base, ops = parse_case_line(l)
+            for i in range(len(ops) + 1):
+                if (base, tuple(ops[:i])) not in seen:
+                    seen.add((base, tuple(ops[:i])))
+                    cases.append((base, ops[:i]))
+        check_entry_points(c, "entry-points-corpus", cases, cli_every=1)
+        # every envelope reachable by at most d operations that change it (11 of the 16-operation alphabet)
+        d0, d1 = (3, 2) if quick else (4, 3)
+        cases = []
+        for base, depth in ((0, d0), (1, d0), (2, d1), (3, d1), (-1, d1), (4, d1), (5, d1), (6, d1), (7, d1)):
+            for n in range(depth + 1):
+                cases += [(base, list(seq)) for seq in itertools.product(MUT11, repeat=n)]
+        check_entry_points(c, "entry-points-exhaustive", cases, cli_every=(23 if quick else 11))
+        c.cov["entry_points_scope"] = ("every envelope reached by <= %d (valid invoice with and without code) / <= %d (other documents, empty envelope) operations "
+                                       "out of the 11 of the 16-operation alphabet that change the envelope, handed to build / sign / validate over "
+                                       "POST /bulk and POST /build (all) and over the binary (a fixed fraction); plus the ends of random histories" % (d0, d1))
+        rn = 600 if quick else 20000
+        check_entry_points(c, "entry-points-random", random_items[:rn], cli_every=(12 if quick else 6))
+    finally:
+        sh("rm -rf " + tmp)
 
 
 def run(c):
     quick = c.tier == "quick"
-    if not std_builds(c):
+    if not std_builds(c, cli=True):
         return
     proved = c.prove()
     ok, out = build_oracle()
@@ -321,11 +500,16 @@ def run(c):
     n = 6000 if quick else 120000
     items = [(c.rng.choice([0, 0, 1, 2, 3, -1]), rand_history(c.rng, api_only=(i % 3 == 0))) for i in range(n)]
     check_lines(c, "random", items)
+    # 3b. entry points of the program on the envelopes that histories end in
+    run_entry_points(c, quick, corpus, items)
     c.cov["rule"] = ("one evaluation = one history run step by step on the real library and on the extracted model (outcome class and "
                      "len(sigs) per step compared) and judged by the property's clauses; exhaustive = every sequence over the "
                      "16-operation alphabet to the stated length (prefixes are contained in the longer histories); random = length "
                      "7..30 over 32 operations incl. JSON surgery; distinct = distinct (base document, history); non-trivial = at "
-                     "least one step is not 'skip'")
+                     "least one step is not 'skip'; entry-points = one envelope (the end of a history) serialised and handed to build, sign and "
+                     "validate over /bulk and /build of a loopback server, a fixed fraction also over the binary (entry_point_verdicts counts "
+                     "the answers per entry point and path), each answer compared with the same steps on the library (the -reference streams, "
+                     "themselves compared with the model) and judged by the clauses; distinct = distinct (base, history) that serialises")
     # 4. extraction cross-check inside Coq
     samp = [c10_line(FX_REPAIRED, b, ops) for b, ops in items[:: max(1, len(items) // 150)]][:150]
     samp += [l for _, l in corpus][:50]
@@ -349,6 +533,8 @@ def replay(path):
     r = json.load(open(path))["replay"]
     l = r["case"]
     build_harness()
+    if l.startswith("c10ep "):
+        return replay_ep(l)
     fx, base, ops = parse_case_line(l)
     g = run_go([l], shards=1)[0]
     m = run_oracle([l], shards=1)[0]
@@ -357,4 +543,29 @@ def replay(path):
     print("model (repaired):", parse_steps(m))
     for clause, i, fid in judge(base, ops, parse_steps(g)):
         print("clause violated at step %d: %s%s" % (i + 1, clause, " [known: %s]" % fid if fid else ""))
+    return 0
+
+
+
+def replay_ep(l):
+    import vlib
+    build_cli()
+    vlib.GOENV["VERIF_GOBL_BIN"] = os.path.join(BIN, "gobl")
+    vs = parse_wire(l)
+    key = vs[-2]
+    _, base, ops = parse_case_line("c10 " + l.split(" ", 1)[1].rsplit(" ", 2)[0])
+    steps, merr, perr, results = parse_ep(run_go([l], shards=1)[0])
+    print("history on base document %d: %s" % (base, show(ops)))
+    print("library, step by step:", steps, "serialises:", merr, "gobl.Parse of that:", perr)
+    refs = {}
+    for e in EP_ENTRIES:
+        tl = c10_line(FX_REPAIRED, base, list(ops) + ep_tail(e, key))
+        ts, ms = parse_steps(run_go([tl], shards=1)[0]), parse_steps(run_oracle([tl], shards=1)[0])
+        nt = len(ep_tail(e, key))
+        refs[e] = ep_reference(ts[-nt:], perr)
+        print("%s = %s on the library: %s   model (repaired): %s" % (e, EP_SAYS[e], ts[-nt:], ms[-nt:] if ms else None))
+    for r in results:
+        print("entry point %s over %s -> %s; envelope handed back: sigs=%s real=%s stamps=%s Validate -> %s" % r)
+    for clause, r in judge_ep(results, refs):
+        print("clause violated by %s over %s: %s" % (r[0], r[1], clause))
     return 0
